@@ -7,8 +7,14 @@ cd /verif
 prop="$1"; mode="${2:-quick}"
 mkdir -p .work bin
 exe=".work/check-$$"
-trap 'rm -f "$exe"' EXIT
-if ! go build -o "$exe" ./cmd/check 2> ".work/build-$$.log"; then
+trap 'rm -f "$exe" ".work/alt-$$.mod" ".work/alt-$$.sum"' EXIT
+modflag=""
+if [ -n "${VERIF_REPO:-}" ] && [ "$VERIF_REPO" != "/repo" ]; then
+  # development aid only (seeded-defect evaluation in a scratch worktree): the registered commands never set VERIF_REPO
+  sed "s|=> /repo|=> $VERIF_REPO|" go.mod > ".work/alt-$$.mod"; cp go.sum ".work/alt-$$.sum"
+  modflag="-modfile=.work/alt-$$.mod"
+fi
+if ! go build $modflag -o "$exe" ./cmd/check 2> ".work/build-$$.log"; then
   cat ".work/build-$$.log" >&2; rm -f ".work/build-$$.log"
   echo "harness: build failed (does /repo still compile?)" >&2
   exit 2
@@ -16,7 +22,7 @@ fi
 rm -f ".work/build-$$.log"
 if [ "$prop" = "C17" ] && [ "$mode" != "replay" ]; then
   # the free-running race pass needs the -race twin, rebuilt from the current tree
-  go build -race -o bin/check-race ./cmd/check 2>/dev/null || rm -f bin/check-race
+  go build $modflag -race -o bin/check-race ./cmd/check 2>/dev/null || rm -f bin/check-race
 fi
 case "$mode" in
   quick|thorough) "$exe" -prop "$prop" -tier "$mode"; rc=$? ;;
